@@ -24,4 +24,4 @@ Definition LOGROTATE_FILTER_0 : list Z := [92; 83; 43; 92; 46; 108; 111; 103; 36
 Definition LOGROTATE_FILTER_1 : list Z := [92; 83; 43; 92; 46; 108; 111; 103; 92; 46; 40; 92; 100; 43; 41; 36].
 Definition LOGROTATE_FILTER_2 : list Z := [92; 83; 43; 92; 46; 108; 111; 103; 92; 46; 40; 92; 100; 43; 41; 92; 46; 103; 122; 63; 36].
 Definition LOGROTATE_NOMATCH_KEY : Z := 100000.
-Definition FILTERED_DIR_REGEX : list Z := [40; 92; 83; 43; 41; 92; 46; 108; 111; 103; 92; 83; 42].
+Definition FILTERED_DIR_REGEX : list Z := [40; 92; 83; 43; 41; 92; 46; 108; 111; 103; 40; 63; 58; 92; 46; 92; 100; 43; 40; 63; 58; 92; 46; 103; 122; 41; 63; 41; 63; 36].
